@@ -22,7 +22,7 @@ fi
 if [ "${MUTANT_BASELINE:-1}" = "1" ]; then
   (cd "$M" && go build ./... && go test -vet=off -count=1 ./... 2>&1 | tail -5) || { echo "MUTANT: does not build or baseline fails"; }
 fi
-VERIF_REPO_SRC="$M" "$(dirname "$0")/../bin/check" "$ID" --no-evidence "$@"
+VERIF_REPO_SRC="$M" "$(dirname "$0")/../bin/check" "$ID" --no-evidence ${MUTANT_ARGS:-} "$@"
 rc=$?
 echo "MUTANT-RESULT rc=$rc"
 exit $rc
